@@ -68,7 +68,16 @@ func (fx *FnCtx) resolveAssign(as *AssignSet, e Expr, env map[string]SVal, st *S
 			s := fx.evalIn(x.Args[0], env, st, st, nil)
 			stp := s.typ.Underlying().(*types.Slice)
 			key, _ := fx.tm.heapKey(stp.Elem())
-			as.byKey[key] = append(as.byKey[key], assignLoc{kind: "slice", slice: s.v.t, field: -1, typ: stp.Elem()})
+			loc := assignLoc{kind: "slice", slice: s.v.t, field: -1, typ: stp.Elem()}
+			// elems(p.F): when p is nil there is no such location (a callee cannot write through it without panicking)
+			if sel, ok := x.Args[0].(*ESel); ok {
+				if b, ok := fx.tryEvalSV(sel.X, env, st); ok {
+					if _, isPtr := b.typ.Underlying().(*types.Pointer); isPtr {
+						loc.ref = b.v.t
+					}
+				}
+			}
+			as.byKey[key] = append(as.byKey[key], loc)
 			return
 		case "each", "eachval":
 			fx.resolveEach(as, x, "", env, st)
@@ -407,7 +416,11 @@ func (fx *FnCtx) checkCalleeFrame(fr *Frame, ins ssa.Instruction, st *State, cal
 			case "cell":
 				goal = or(fmt.Sprintf("(> (obj %s) %s)", l.ref, fx.allocEntry), eq(l.ref, "nilref"), fx.assignSet.member(key, l.ref, l.field))
 			case "slice":
-				goal = fmt.Sprintf("(or (> (sobj %s) %s) (= (scap %s) 0) (forall ((r Ref)) (=> (and (= (obj r) (sobj %s)) (<= (soff %s) (idx r)) (< (idx r) (+ (soff %s) (scap %s)))) %s)))",
+				nilBase := "false"
+				if l.ref != "" {
+					nilBase = eq(l.ref, "nilref")
+				}
+				goal = fmt.Sprintf("(or "+nilBase+" (> (sobj %s) %s) (= (scap %s) 0) (forall ((r Ref)) (=> (and (= (obj r) (sobj %s)) (<= (soff %s) (idx r)) (< (idx r) (+ (soff %s) (scap %s)))) %s)))",
 					l.slice, fx.allocEntry, l.slice, l.slice, l.slice, l.slice, l.slice, fx.assignSet.member(key, "r", l.field))
 			case "objcells":
 				goal = fmt.Sprintf("(or (> (obj %s) %s) (forall ((r Ref)) (=> (= (obj r) (obj %s)) %s)))", l.ref, fx.allocEntry, l.ref, fx.assignSet.member(key, "r", l.field))
@@ -488,4 +501,18 @@ func (fx *FnCtx) storeFormHavoc(as *AssignSet, key, srt string, e *modEntry, old
 		h = fmt.Sprintf("(store %s %s %s)", h, l.ref, nv)
 	}
 	return fx.s.define("Hs", "(Array Ref "+srt+")", h), true
+}
+
+func (fx *FnCtx) tryEvalSV(e Expr, env map[string]SVal, st *State) (v SVal, ok bool) {
+	savedQuant := fx.s.inQuant
+	defer func() {
+		if r := recover(); r != nil {
+			if _, isUns := r.(*UnsupportedError); !isUns {
+				panic(r)
+			}
+			fx.s.inQuant = savedQuant
+			ok = false
+		}
+	}()
+	return fx.evalIn(e, env, st, st, nil), true
 }
